@@ -63,16 +63,25 @@ def run_one(path, scratch, tier="quick", only_prop=None, expects=None, baseline=
         evd = tempfile.mkdtemp(prefix="ev", dir=SCRATCH_ROOT)
         env = dict(os.environ, SWIMVERIFY_REPO=scratch, SWIMVERIFY_EVIDENCE_DIR=evd, SWIMVERIFY_NO_REPLAY="1")
         results = []
+        oks = []
         for prop in props:
             p = subprocess.run([os.path.join(VERIF, "swimverify"), "check", prop, "--tier", tier, "-v"], env=env, capture_output=True, text=True, cwd=VERIF)
             viol = [l.strip() for l in p.stdout.splitlines() if l.strip().startswith("[violation]")]
             # reports that the unmodified tree already has (known findings, or a defect under investigation) are not the mutant's
             viol = [v for v in viol if v.split()[1] not in baseline]
+            oks.extend(l.strip() for l in p.stdout.splitlines() if l.strip().startswith("[ok]"))
             results.append((prop, p.returncode, viol, p.stdout[-1500:] + p.stderr[-1500:]))
         shutil.rmtree(evd, ignore_errors=True)
         allviol = [v for _, _, vs, _ in results for v in vs]
         if any(rc not in (0, 1) for _, rc, _, _ in results):
             return "broken", results[0][3]
+        # `expect: ok:<instance>`: a repaired twin - nothing may be reported and the named instance must be evaluated and hold (not merely be suppressed as known)
+        want_ok = [e[3:] for e in expects if e.startswith("ok:")]
+        if want_ok:
+            miss = [w for w in want_ok if not any(w in o for o in oks)]
+            if allviol or miss:
+                return "FALSE-ALARM", "\n".join(allviol[:5]) + (" not evaluated as holding: %s" % miss if miss else "")
+            return "ok", "silent and %s hold(s)" % want_ok
         if expects == ["silent"]:
             return ("ok", "silent as expected") if not allviol else ("FALSE-ALARM", "\n".join(allviol[:5]))
         missing = [e for e in expects if not any(e in v for v in allviol)]
